@@ -85,7 +85,7 @@ SRC = {
     "C06": "flip_mutation, binomialGA, one_point / two_point / uniform / uniform_proportional / uniform_rank / empty crossover (random draws as explicit streams; the ARGUMENTS each passes to random_sample / random_weighted_sample are part of the statements - one cut below the string length, two DISTINCT cuts, weights = fitness / rank, one parent index per locus); GeneticAlgorithm._get_new_individ_g (the wiring of one offspring: selection on scaled fitness and ranks, crossover of the selected rows, mutation of its result) and SHAGA._get_new_individ_g (tournament of two keyed on the fitness, binomialGA with the current individual first, flip mutation)",
     "C07": "bounds_control (coordinate-wise clamp), binomial, the donor strategies best_1 / rand_1 / rand_to_best1 / current_to_best_1 / best_2 / rand_2 / current_to_pbest_1_archive (= DE.donor / currentToPbest1 on the rows named by random_sample, read over the ring Int; with random_sample as translated: DISTINCT members, asked for without replacement); DifferentialEvolution._get_new_individ_g / SHADE._get_new_individ_g (the wiring of one trial: donor from parent/best/population/F, binomial with the parent first under CR, boundary repair - so the trial is in the box whatever donor and crossover return); find_pbest_id (= Select.pbest: the first max(1, count) entries of the translated argsort_k)",
     "C08": "get_levels_tree_from_i (= levels, for every arity array); the Python-level operator shrink_mutation (= shrinkMut at the drawn position and argument, through the translated Tree methods); Tree.get_levels / get_max_level (= levels / depth) and the Python-level operator standard_crossover (= standardX at the drawn positions and coin; child well-formed, no deeper than max_level, one subtree transplanted or a parent); Tree.get_common_region for two trees (= commonRegion2) and one_point_crossoverGP (= onePointX at the drawn common-region position; child well-formed, no deeper than the deeper parent); growing_mutation (= growMut with the fresh tree grown under the budget max(get_levels(i)) = depth of the replaced subtree; with a grower that respects its budget the child is no deeper than the parent); point_mutation (= pointMut: exactly the drawn node replaced, arity array untouched, replacement drawn for the arity recorded in the node); swap_mutation (= swapMut at the drawn multi-argument node with the inverse of the sattolo shuffle: the argument subtrees of one node permuted, spliced from the last position to the first); Tree.full_growing_method / growing_method (= the model-side stack run growRun, whose result growInit accepts unchanged: well-formed, no deeper than max_level); GeneticProgramming._get_new_individ_g (the wiring of one offspring)",
-    "C09": "Tree.__call__ and Tree.__str__ (the reversed stack pass; node class test, application / formatting of a symbol, arity attribute and terminal value / name as function parameters on node identifiers: on the prefix encoding of every rose tree whose nodes carry their recorded arity no pop underflows and the result is the denotational value evalRT of the tree); find_end_subtree_from_i, find_id_args_from_i, find_first_difference_between_two, common_region_two_trees, Tree.subtree_id / subtree / concat, Tree.get_levels / get_max_level (= levels / depth), Tree.get_common_region for two trees (= commonRegion2) (equal to the model on every well-formed tree, with no out-of-range access)",
+    "C09": "Tree.__call__ and Tree.__str__ (the reversed stack pass; node class test, application / formatting of a symbol, arity attribute and terminal value / name as function parameters on node identifiers: on the prefix encoding of every rose tree whose nodes carry their recorded arity no pop underflows and the result is the denotational value evalRT of the tree), Tree._init_n_args (the recorded arity array = the nodes' own arities, position by position); find_end_subtree_from_i, find_id_args_from_i, find_first_difference_between_two, common_region_two_trees, Tree.subtree_id / subtree / concat, Tree.get_levels / get_max_level (= levels / depth), Tree.get_common_region for two trees (= commonRegion2) (equal to the model on every well-formed tree, with no out-of-range access)",
     "C10": "the vectorised kernels SamplingGrid.bit_to_int / _decode and GrayCode.gray_to_bit / bit_to_gray / _decode (whole-array numpy code read through TFV.Model.Np: on every rectangular 0/1 array they compute, row by row, bitsToNat / grayToBin / binToGray / code of the model; the two Gray conversions are mutually inverse) and the encoder SamplingGrid.int_to_bit (= natToBits w of every code for every given width w >= 1; encode then decode through the regenerated kernels returns the codes, directly and through the Gray code)",
     "C11": "binary_search_interval, check_for_value, argsort_k, tournament_selection (incl. the arguments it passes to random_sample: len(fitness), tour_size, replace=False), proportional_selection / rank_selection (weights = fitness / rank, with replacement), sattolo_shuffle, random_sample, random_weighted_sample; minmax_scale (= Select.minmax on every non-empty vector, floats read as rationals; the empty vector is rejected)",
     "C14": "SelfCGA._get_new_proba (= SelfConf.newProba over the rationals: the winner gains K/iters, every entry loses K/(z*iters), clip to [threshold, 1], renormalise - the table read as its value vector in key order, the winner as the position of its key; a winner that is not a key is rejected); SelfCGA._adapt (the wiring of one adaptation step: each table updated once from the operators of its own kind with its own threshold; the next operators drawn from the updated table of their own kind); PDPGA / PDPGP._adapt (with remembered parents: success flags recomputed first, each table updated once from the operators of its own kind with its own threshold, memory emptied; in every call the next operators are drawn from the current table of their own kind); PDPGA / PDPGP._get_new_individ_g (one remembered parent fitness per offspring, picked among the raw fitness of the selected parents)",
